@@ -335,6 +335,17 @@ func init() {
 		}
 		return &Str{opaque: "fmt.Sprintf"}
 	}
+	intrinsics["fmt.Sprint"] = func(x *Exec, c *frame, fn *ssa.Function, a []Value) Value {
+		// fmt.Sprint of a single string operand is that string
+		if sl, ok := a[0].(Slice); ok && sl.len == 1 {
+			if ifc, ok := sl.get(0).(Iface); ok && ifc.t != nil && isString(ifc.t) {
+				if s, ok := ifc.v.(*Str); ok {
+					return s
+				}
+			}
+		}
+		return &Str{opaque: "fmt.Sprint"}
+	}
 	intrinsics["fmt.Errorf"] = func(x *Exec, c *frame, fn *ssa.Function, a []Value) Value {
 		if s, ok := sprintf(x, a); ok {
 			return x.newError(s)
